@@ -9,10 +9,10 @@ let z_of_int (i : int) : coq_Z =
 let ten = z_of_int 10
 
 let z_of_string (s : string) : coq_Z =
-  let neg = String.length s > 0 && s.[0] = '-' in
+  let neg = Stdlib.String.length s > 0 && s.[0] = '-' in
   let start = if neg then 1 else 0 in
   let acc = ref Z0 in
-  for k = start to String.length s - 1 do
+  for k = start to Stdlib.String.length s - 1 do
     let d = Char.code s.[k] - 48 in
     if d < 0 || d > 9 then failwith ("bad integer: " ^ s);
     acc := BinInt.Z.add (BinInt.Z.mul !acc ten) (z_of_int d)
@@ -26,16 +26,16 @@ let small_int_of_z = function Z0 -> 0 | Zpos p -> int_of_pos p | Zneg p -> - (in
 let string_of_z (z : coq_Z) : string =
   let neg, z = (match z with Zneg p -> true, Zpos p | _ -> false, z) in
   if z = Z0 then "0" else begin
-    let buf = Buffer.create 24 in
+    let buf = Stdlib.Buffer.create 24 in
     let cur = ref z in
     while !cur <> Z0 do
       let (q, r) = BinInt.Z.quotrem !cur ten in
-      Buffer.add_char buf (Char.chr (48 + small_int_of_z r));
+      Stdlib.Buffer.add_char buf (Char.chr (48 + small_int_of_z r));
       cur := q
     done;
-    let s = Buffer.contents buf in
-    let n = String.length s in
-    let rev = String.init n (fun i -> s.[n - 1 - i]) in
+    let s = Stdlib.Buffer.contents buf in
+    let n = Stdlib.String.length s in
+    let rev = Stdlib.String.init n (fun i -> s.[n - 1 - i]) in
     if neg then "-" ^ rev else rev
   end
 
@@ -43,10 +43,10 @@ let () =
   try
     while true do
       let line = input_line stdin in
-      let toks = List.filter (fun t -> t <> "") (String.split_on_char ' ' (String.trim line)) in
-      let args = List.map z_of_string toks in
+      let toks = Stdlib.List.filter (fun t -> t <> "") (Stdlib.String.split_on_char ' ' (Stdlib.String.trim line)) in
+      let args = Stdlib.List.map z_of_string toks in
       let res = Run.run args in
-      print_string (String.concat " " (List.map string_of_z res));
+      print_string (Stdlib.String.concat " " (Stdlib.List.map string_of_z res));
       print_newline ()
     done
   with End_of_file -> ()
